@@ -71,3 +71,9 @@ Definition frame_spec_bytes (p : payload) : option (list N) :=
     else None
   | _ => None
   end.
+
+(* FHDR: DevAddr | FCtrl | FCnt (16 LSB) | FOpts; FOptsLen announces the FOpts bytes that follow *)
+Definition spec_fhdr (h : fhdr) (opts : list N) : list N :=
+  let c := fc h in
+  let cb := spec_fctrl (mkFCtrl (adr c) (adrackreq c) (ack c) (fpending c) (classb c) (N.of_nat (length opts))) in
+  spec_encode L_FHDR_fixed [id_val (devaddr h); cb; fcnt h mod 65536] ++ opts.
